@@ -417,9 +417,108 @@ def gen_vocab():
     return "\n".join(out)
 
 
+# ---------------------------------------------------------------------------------------------
+# the command line surface of jp (jmespath-cli/src/main.rs): clap argument table, exit codes of `die!` and of the
+# `--ast` path, and the order in which `main` compiles, tests `--ast`, reads the input, searches and prints
+
+def gen_cli():
+    path = os.path.join(REPO, "jmespath-cli", "src", "main.rs")
+    src = strip_rust_comments(open(path, encoding="utf-8").read())
+    args = []
+    for m in re.finditer(r"Arg::with_name\(\s*\"([^\"]+)\"\s*\)", src):
+        # the builder chain of this argument: up to the parenthesis that closes `.arg(`
+        i, depth = m.end(), 0
+        while i < len(src):
+            if src[i] == "(":
+                depth += 1
+            elif src[i] == ")":
+                if depth == 0:
+                    break
+                depth -= 1
+            elif src[i] == '"':           # skip string literals (help texts contain parentheses)
+                i += 1
+                while src[i] != '"':
+                    i += 2 if src[i] == "\\" else 1
+            i += 1
+        chain = src[m.end():i]
+        chain_nostr = re.sub(r"\.help\(\s*(\"(?:[^\"\\]|\\.)*\"\s*)+,?\s*\)", "", chain, flags=re.S)
+        def one(meth):
+            mm = re.search(r"\." + meth + r"\(\s*\"([^\"]*)\"\s*\)", chain_nostr)
+            return mm.group(1) if mm else None
+        def flag(meth):
+            mm = re.search(r"\." + meth + r"\(\s*(true|false)\s*\)", chain_nostr)
+            return mm.group(1) == "true" if mm else False
+        idx = re.search(r"\.index\(\s*(\d+)\s*\)", chain_nostr)
+        known = set(re.findall(r"\.(\w+)\(", chain_nostr))
+        extra = known - {"short", "long", "takes_value", "multiple", "required", "index", "conflicts_with"}
+        if extra:
+            fail("jp: argument %s uses clap builder methods the translator does not know: %s" % (m.group(1), sorted(extra)))
+        args.append(dict(name=m.group(1), short=one("short"), long=one("long"), takes=flag("takes_value"), multiple=flag("multiple"),
+                         required=flag("required"), index=int(idx.group(1)) if idx else None,
+                         conflicts=re.findall(r"\.conflicts_with\(\s*\"([^\"]*)\"\s*\)", chain_nostr)))
+    if not args:
+        fail("jp: no clap arguments found in main.rs")
+    dm = re.search(r"macro_rules!\s*die\s*\((.*?)\n\);", src, re.S)
+    if not dm:
+        fail("jp: cannot find the die! macro")
+    exits = re.findall(r"\bexit\(\s*(\d+)\s*\)", dm.group(1))
+    to_stderr = bool(re.search(r"writeln!\(\s*&mut\s+::std::io::stderr\(\)", dm.group(1)))
+    if len(exits) != 1:
+        fail("jp: die! must contain exactly one exit(N)")
+    mm = re.search(r"fn main\(\)\s*\{(.*?)\n\}\n", src, re.S)
+    if not mm:
+        fail("jp: cannot find fn main")
+    body = mm.group(1)
+    marks = [("compile", r"\bcompile\("), ("ast", r"is_present\(\s*\"ast\"\s*\)"), ("input", r"\bget_json\("), ("search", r"\.search\("),
+             ("show", r"\bshow_result\(")]
+    pos = []
+    for name, rx in marks:
+        k = re.search(rx, body)
+        if not k:
+            fail("jp: main no longer contains " + name)
+        pos.append((k.start(), name))
+    order = [n for _, n in sorted(pos)]
+    astm = re.search(r"is_present\(\s*\"ast\"\s*\)\s*\{", body)
+    ast_block = ""
+    if astm:
+        i, depth = astm.end(), 1
+        while i < len(body) and depth:
+            if body[i] == '"':
+                i += 1
+                while body[i] != '"':
+                    i += 2 if body[i] == "\\" else 1
+            elif body[i] in "{}":
+                depth += 1 if body[i] == "{" else -1
+            i += 1
+        ast_block = body[astm.end():i]
+    ast_exit = re.findall(r"\bexit\(\s*(\d+)\s*\)", ast_block)
+    if len(ast_exit) != 1:
+        fail("jp: the --ast branch must end in exactly one exit(N)")
+    other_reads = [f for f in ("read_file", "stdin") if re.search(r"\b" + f + r"\b", body.split("get_json(")[0].split('is_present("ast")')[-1])]
+    def opt(x):
+        return "none" if x is None else "some " + (str(x) if isinstance(x, int) else '"%s"' % x)
+    def b(x):
+        return "true" if x else "false"
+    out = ["-- GENERATED by tools/translate.py from /repo/jmespath-cli/src/main.rs — do not edit", "namespace JmesVerif.Generated", "",
+           "structure CliArg where", "  name : String", "  short : Option String", "  long : Option String", "  takesValue : Bool",
+           "  multiple : Bool", "  required : Bool", "  index : Option Nat", "  conflicts : List String", "  deriving DecidableEq, Repr", "",
+           "def cliArgs : List CliArg :=", "  [" + ",\n   ".join(
+               "⟨\"%s\", %s, %s, %s, %s, %s, %s, [%s]⟩" % (a["name"], opt(a["short"]), opt(a["long"]), b(a["takes"]), b(a["multiple"]), b(a["required"]),
+                                                          opt(a["index"]), ", ".join('"%s"' % c for c in a["conflicts"])) for a in args) + "]", "",
+           "/-- `die!`: writes the message to stderr (%s) and calls `exit(N)` -/" % ("yes" if to_stderr else "NO"),
+           "def dieExit : Nat := " + exits[0], "def dieWritesStderr : Bool := " + b(to_stderr),
+           "/-- the `--ast` branch of main ends in `exit(N)` -/", "def astExit : Nat := " + ast_exit[0],
+           "/-- order of first occurrence in `fn main`: compile, the `--ast` test, reading the input, search, printing -/",
+           "def mainOrder : List String := [" + ", ".join('"%s"' % o for o in order) + "]",
+           "/-- file / stdin reads between the `--ast` test and `get_json` (must be none) -/",
+           "def readsBeforeInput : List String := [" + ", ".join('"%s"' % o for o in other_reads) + "]",
+           "", "end JmesVerif.Generated", ""]
+    return "\n".join(out)
+
+
 def main():
     ch = []
-    for name, fn in (("Lbp.lean", gen_lbp), ("Signatures.lean", gen_sigs), ("Features.lean", gen_features), ("LexTable.lean", gen_lextable), ("Vocab.lean", gen_vocab)):
+    for name, fn in (("Lbp.lean", gen_lbp), ("Signatures.lean", gen_sigs), ("Features.lean", gen_features), ("LexTable.lean", gen_lextable), ("Vocab.lean", gen_vocab), ("CliArgs.lean", gen_cli)):
         if write_if_changed(name, fn()):
             ch.append(name)
     print("translate: " + ("rewrote " + ", ".join(ch) if ch else "unchanged"))
